@@ -1,10 +1,372 @@
-//! C19 — not built yet.
-use crate::{sx::Sx, Emitter};
+//! C19 — string-valued protocol enums: `T::from(s)` / string form / serde / `==` / `cmp`
+//! on every enum type listed in `gen_enums.rs` (generated from ruma's source by
+//! tools/translators/c19.py, together with coq/Gen/StringEnums.v).
+//!
+//! Cases  (name = Rust path of the enum type):
+//!   ( name N0 S<s> )        one string:  ( idx display [as_ref] debug_ok [ser] (idx display)x3 clone_eq )
+//!   ( name N1 S<a> S<b> )   a pair:      ( [eq] [cmp] [eq_sym] [cmp_rev] )
+//!   ( name N2 N<i> )        the string form of the i-th declared variant (empty payload) and the
+//!                           position of the variant that string converts to
+//!   ( name N3 )             shape: number of variants, position of the fallback
+//! `idx` = position of the variant in declaration order (compared by `mem::discriminant`
+//! against the variants constructed in `gen_enums.rs`).
+//! The serde impls are generated glue around `From<&str>` / `as_ref`: they are checked here
+//! (JSON text path, owned-string path, serialization), not proved.
+use std::{cmp::Ordering, collections::BTreeMap, fmt::Debug, fmt::Display, mem::discriminant};
 
-pub fn run(_tier: &str, _seed: u64, _em: &mut Emitter) {}
+use serde::{de::DeserializeOwned, Serialize};
 
-pub fn replay(_case: &Sx) -> Option<Sx> {
-    None
+use crate::{rng::Rng, sx::Sx, Emitter};
+
+#[path = "gen_enums.rs"]
+mod gen_enums;
+
+/// Run `f`, mapping a panic to `Sx::panic()`.
+fn g<F: FnOnce() -> Sx>(f: F) -> Sx {
+    crate::sx::guarded(std::panic::AssertUnwindSafe(f))
+}
+
+pub struct Info<T> {
+    pub name: &'static str,
+    /// variants in declaration order; `None` marks the fallback variant's position
+    pub variants: Vec<Option<T>>,
+    /// strings written in the source (`rename`, `alias`, event types) - generator seeds only
+    pub literals: Vec<&'static str>,
+    pub as_ref: Option<for<'a> fn(&'a T) -> &'a str>,
+    pub eq: Option<fn(&T, &T) -> bool>,
+    pub cmp: Option<fn(&T, &T) -> Ordering>,
+}
+
+pub trait Checker {
+    fn name(&self) -> &'static str;
+    fn literals(&self) -> &[&'static str];
+    fn n_variants(&self) -> usize;
+    fn one(&self, s: &str) -> Sx;
+    fn pair(&self, a: &str, b: &str) -> Sx;
+    fn variant(&self, i: usize) -> Sx;
+    fn shape(&self) -> Sx;
+    /// string forms of all dedicated variants (the implementation's own spellings)
+    fn spellings(&self) -> Vec<String>;
+}
+
+pub trait EnumLike: for<'a> From<&'a str> + Display + Debug + Clone + Serialize + DeserializeOwned + 'static {}
+impl<T> EnumLike for T where T: for<'a> From<&'a str> + Display + Debug + Clone + Serialize + DeserializeOwned + 'static {}
+
+#[derive(Default)]
+pub struct Registry {
+    pub items: Vec<Box<dyn Checker>>,
+}
+
+impl Registry {
+    pub fn add<T: EnumLike>(&mut self, i: Info<T>) {
+        self.items.push(Box::new(i));
+    }
+}
+
+impl<T: EnumLike> Info<T> {
+    fn idx(&self, v: &T) -> i128 {
+        let d = discriminant(v);
+        let mut fallback = self.variants.len();
+        for (i, x) in self.variants.iter().enumerate() {
+            match x {
+                Some(x) if discriminant(x) == d => return i as i128,
+                Some(_) => {}
+                None => fallback = i,
+            }
+        }
+        fallback as i128
+    }
+    fn obs(&self, v: &T) -> Sx {
+        Sx::L(vec![Sx::N(self.idx(v)), Sx::s(&v.to_string())])
+    }
+}
+
+fn ord_code(o: Ordering) -> Sx {
+    Sx::N(match o {
+        Ordering::Less => 0,
+        Ordering::Equal => 1,
+        Ordering::Greater => 2,
+    })
+}
+
+impl<T: EnumLike> Checker for Info<T> {
+    fn name(&self) -> &'static str {
+        self.name
+    }
+    fn literals(&self) -> &[&'static str] {
+        &self.literals
+    }
+    fn n_variants(&self) -> usize {
+        self.variants.len()
+    }
+    fn one(&self, s: &str) -> Sx {
+        let v = T::from(s);
+        let display = v.to_string();
+        let debug_ok = format!("{v:?}") == format!("{display:?}");
+        // Serialize -> the JSON text of a string; read it back as a plain String
+        let ser = serde_json::to_string(&v).ok().and_then(|t| serde_json::from_str::<String>(&t).ok());
+        // Deserialize from JSON text (borrowed or escaped) and from an owned value
+        let text = serde_json::to_string(s).unwrap();
+        let de1 = serde_json::from_str::<T>(&text).ok();
+        let de2 = serde_json::from_value::<T>(serde_json::Value::String(s.to_owned())).ok();
+        let again = T::from(display.as_str());
+        let clone_eq = self.eq.map(|eq| eq(&v, &v.clone()));
+        Sx::ok(Sx::L(vec![
+            Sx::N(self.idx(&v)),
+            Sx::s(&display),
+            Sx::opt(self.as_ref.map(|f| Sx::s(f(&v)))),
+            Sx::b(debug_ok),
+            Sx::opt(ser.map(|x| Sx::s(&x))),
+            Sx::opt(de1.map(|x| self.obs(&x))),
+            Sx::opt(de2.map(|x| self.obs(&x))),
+            self.obs(&again),
+            Sx::opt(clone_eq.map(Sx::b)),
+        ]))
+    }
+    fn pair(&self, a: &str, b: &str) -> Sx {
+        let (x, y) = (T::from(a), T::from(b));
+        Sx::ok(Sx::L(vec![
+            Sx::opt(self.eq.map(|f| Sx::b(f(&x, &y)))),
+            Sx::opt(self.cmp.map(|f| ord_code(f(&x, &y)))),
+            Sx::opt(self.eq.map(|f| Sx::b(f(&y, &x)))),
+            Sx::opt(self.cmp.map(|f| ord_code(f(&y, &x)))),
+        ]))
+    }
+    fn variant(&self, i: usize) -> Sx {
+        match self.variants.get(i) {
+            Some(Some(v)) => {
+                // the variant's own spelling, and which variant that spelling converts to
+                let own = v.to_string();
+                let back = T::from(own.as_str());
+                Sx::ok(Sx::L(vec![Sx::s(&own), Sx::N(self.idx(&back))]))
+            }
+            Some(None) => Sx::ok(Sx::L(vec![])),
+            None => Sx::err(0),
+        }
+    }
+    fn shape(&self) -> Sx {
+        let fb = self.variants.iter().position(|v| v.is_none()).unwrap_or(self.variants.len());
+        Sx::ok(Sx::L(vec![Sx::N(self.variants.len() as i128), Sx::N(fb as i128)]))
+    }
+    fn spellings(&self) -> Vec<String> {
+        self.variants.iter().flatten().map(|v| v.to_string()).collect()
+    }
+}
+
+fn registry() -> Registry {
+    let mut reg = Registry::default();
+    gen_enums::register(&mut reg);
+    reg
+}
+
+fn case_one(name: &str, s: &str) -> Sx {
+    Sx::L(vec![Sx::s(name), Sx::N(0), Sx::s(s)])
+}
+fn case_pair(name: &str, a: &str, b: &str) -> Sx {
+    Sx::L(vec![Sx::s(name), Sx::N(1), Sx::s(a), Sx::s(b)])
+}
+
+/// near-misses of a spelling: case, prefix/suffix, one edit
+fn near_misses(s: &str, out: &mut Vec<String>) {
+    let chars: Vec<char> = s.chars().collect();
+    out.push(s.to_uppercase());
+    out.push(s.to_lowercase());
+    out.push(s.to_ascii_uppercase());
+    if let Some(c) = chars.first() {
+        let mut t: String = if c.is_uppercase() { c.to_lowercase().collect() } else { c.to_uppercase().collect() };
+        t.extend(&chars[1..]);
+        out.push(t);
+    }
+    out.push(format!("{s}x"));
+    out.push(format!("{s}."));
+    out.push(format!("{s}.*"));
+    out.push(format!("{s}.x"));
+    out.push(format!("{s}\u{0}"));
+    out.push(format!(" {s}"));
+    out.push(format!("{s} "));
+    out.push(format!("x{s}"));
+    out.push(format!("m.{s}"));
+    out.push(format!("M_{s}"));
+    out.push(format!("org.matrix.{s}"));
+    for p in ["m.", "M_", ".m.rule.", "m.role.", "org.matrix.", "m.room."] {
+        if let Some(r) = s.strip_prefix(p) {
+            out.push(r.to_owned());
+        }
+    }
+    if !chars.is_empty() {
+        out.push(chars[..chars.len() - 1].iter().collect());
+        out.push(chars[1..].iter().collect());
+        for k in [0, chars.len() / 2, chars.len() - 1] {
+            let mut c = chars.clone();
+            c[k] = if c[k] == '_' { '-' } else if c[k] == '.' { '_' } else { 'q' };
+            out.push(c.iter().collect());
+            let mut c = chars.clone();
+            c.remove(k);
+            out.push(c.iter().collect());
+            let mut c = chars.clone();
+            c.insert(k, '_');
+            out.push(c.iter().collect());
+            if k + 1 < chars.len() {
+                let mut c = chars.clone();
+                c.swap(k, k + 1);
+                out.push(c.iter().collect());
+            }
+        }
+    }
+    out.push(s.replace('_', "-"));
+    out.push(s.replace('_', "."));
+    out.push(s.replace('.', "_"));
+    out.push(s.replace('-', "_"));
+}
+
+const UNICODE: &[&str] = &[
+    "", " ", "\u{0}", "\n", "\"", "\\", "\\u0041", "a\"b\\c", "\u{e9}", "\u{1F600}", "\u{2028}", "\u{ffff}", "\u{10000}",
+    "\u{10ffff}", "\u{130}", "\u{131}", "\u{17f}", "\u{212a}", "\u{df}", "\u{fb01}", "A", "a", "_", "-", ".", "*", ".*", "m.", "M_",
+    "m", "~", "\u{7f}", "\u{80}", "zzzz", "0", "1", "\t", "null", "true", "{}", "[]",
+];
+
+fn random_string(r: &mut Rng, pool: &[String]) -> String {
+    match r.below(4) {
+        0 => crate::jgen::gen_str(r),
+        1 => {
+            let n = r.below(12);
+            (0..n)
+                .map(|_| {
+                    let c = match r.below(6) {
+                        0 => r.below(0x80) as u32,
+                        1 => 0x80 + r.below(0x780) as u32,
+                        2 => 0x800 + r.below(0xF800) as u32,
+                        3 => 0x10000 + r.below(0x100000) as u32,
+                        _ => *r.pick(&[b'a', b'm', b'.', b'_', b'-', b'M', b'*', b'r']) as u32,
+                    };
+                    char::from_u32(c).unwrap_or('\u{fffd}')
+                })
+                .collect()
+        }
+        _ => {
+            // a mutated known spelling
+            if pool.is_empty() {
+                return String::new();
+            }
+            let mut c: Vec<char> = r.pick(pool).chars().collect();
+            for _ in 0..1 + r.below(2) {
+                let k = r.below(c.len() + 1);
+                match r.below(4) {
+                    0 if k < c.len() => {
+                        c.remove(k);
+                    }
+                    1 => c.insert(k.min(c.len()), *r.pick(&['.', '_', 'x', 'M', '\u{e9}', '*', 'A', '\u{1F600}'])),
+                    2 if k < c.len() => c[k] = if c[k].is_uppercase() { c[k].to_ascii_lowercase() } else { c[k].to_ascii_uppercase() },
+                    _ => c.truncate(k),
+                }
+            }
+            c.into_iter().collect()
+        }
+    }
+}
+
+pub fn run(tier: &str, seed: u64, em: &mut Emitter) {
+    let reg = registry();
+    let thorough = tier == "thorough";
+    let mut rng = Rng::new(seed ^ 0xC19);
+    // every spelling the implementation itself prints for a dedicated variant, plus every literal of the source
+    let mut pool: Vec<String> = vec![];
+    for c in &reg.items {
+        pool.extend(c.spellings());
+        pool.extend(c.literals().iter().map(|s| s.trim_end_matches('*').to_owned()));
+    }
+    pool.sort();
+    pool.dedup();
+
+    for c in &reg.items {
+        let name = c.name();
+        // --- systematic: shape, every declared variant, every own spelling / literal and its near-misses
+        em.emit("systematic-shape", Sx::L(vec![Sx::s(name), Sx::N(3)]), g(|| c.shape()));
+        for i in 0..=c.n_variants() {
+            em.emit("systematic-variant", Sx::L(vec![Sx::s(name), Sx::N(2), Sx::N(i as i128)]), g(|| c.variant(i)));
+        }
+        let mut own: Vec<String> = c.spellings();
+        own.extend(c.literals().iter().map(|s| s.trim_end_matches('*').to_owned()));
+        own.sort();
+        own.dedup();
+        let mut strings: Vec<String> = own.clone();
+        for s in &own {
+            near_misses(s, &mut strings);
+            // wildcard prefixes with suffixes (harmless for exact spellings: they become unknown strings)
+            for suf in ["x", "abc.def", "", "*", "\u{e9}\u{1F600}", "m.room.message", "."] {
+                strings.push(format!("{s}{suf}"));
+            }
+        }
+        strings.extend(UNICODE.iter().map(|s| (*s).to_owned()));
+        strings.sort();
+        strings.dedup();
+        for s in &strings {
+            em.emit("systematic-spelling", case_one(name, s), g(|| c.one(s)));
+        }
+        // --- spellings of all the other enums (an enum must not alter what it does not know)
+        let step = if thorough { 1 } else { 3 };
+        for (k, s) in pool.iter().enumerate() {
+            if k % step == (name.len() % step) {
+                em.emit("cross-enum", case_one(name, s), g(|| c.one(s)));
+            }
+        }
+        // --- pairs: == / cmp against the string forms
+        let mut ps: Vec<String> = own.clone();
+        ps.extend(["", "a", "m", "m.", "zzzz", "~", "M", "\u{e9}"].iter().map(|s| (*s).to_owned()));
+        for s in own.iter().take(4) {
+            ps.push(format!("{s}x"));
+            ps.push(s.to_uppercase());
+        }
+        ps.sort();
+        ps.dedup();
+        if ps.len() <= 14 || thorough {
+            for a in &ps {
+                for b in &ps {
+                    em.emit("systematic-pair", case_pair(name, a, b), g(|| c.pair(a, b)));
+                }
+            }
+        } else {
+            for _ in 0..200 {
+                let (a, b) = (rng.pick(&ps).clone(), rng.pick(&ps).clone());
+                em.emit("random-pair", case_pair(name, &a, &b), g(|| c.pair(&a, &b)));
+            }
+        }
+        // --- random Unicode / mutated spellings
+        let n = if thorough { 3000 } else { 150 };
+        for _ in 0..n {
+            let s = random_string(&mut rng, &own);
+            em.emit("random-unicode", case_one(name, &s), g(|| c.one(&s)));
+            if rng.chance(1, 4) {
+                let t = random_string(&mut rng, &own);
+                em.emit("random-pair", case_pair(name, &s, &t), g(|| c.pair(&s, &t)));
+            }
+        }
+    }
+    // --- malformed: an enum name the model does not know is not a case; nothing to emit here.
+}
+
+pub fn replay(case: &Sx) -> Option<Sx> {
+    let l = case.as_list()?;
+    let name = l.first()?.as_string()?;
+    let reg = registry();
+    let by: BTreeMap<&str, &Box<dyn Checker>> = reg.items.iter().map(|c| (c.name(), c)).collect();
+    let c = by.get(name.as_str())?;
+    match (l.get(1)?.as_int()?, &l[2..]) {
+        (0, [s]) => {
+            let s = s.as_string()?;
+            Some(g(|| c.one(&s)))
+        }
+        (1, [a, b]) => {
+            let (a, b) = (a.as_string()?, b.as_string()?);
+            Some(g(|| c.pair(&a, &b)))
+        }
+        (2, [i]) => {
+            let i = usize::try_from(i.as_int()?).ok()?;
+            Some(g(|| c.variant(i)))
+        }
+        (3, []) => Some(g(|| c.shape())),
+        _ => None,
+    }
 }
 
 pub fn dump(_dir: &str) {}
